@@ -332,6 +332,34 @@ def run(repo, rep, tier):
     rep.ob("C13.R3", fd, f"_format_decimal rounds with a half-away-from-zero primitive only ({n_round} rounding calls)", not bad and n_round >= 1,
            "" if not bad else "; ".join(bad) + ": exact ties (0.125 at two places, 2.5 at zero) are displayed rounded the other way", key="C13.R3@rounding")
     dp = [n for n in body_walk(fd) if isinstance(n, ast.Call) and last_attr(n.func) == "sigfig" and any(kw.arg == "decimals" for kw in n.keywords)]
+    # the rounding to the requested decimals works on the 15-significant-digit decimal text of the value, not on the
+    # binary float (a computed value such as 0.145 * 100 = 14.499999999999998 must first become 14.5)
+    p0_ = fd.args.args[0].arg
+    for c_ in dp:
+        a0 = c_.args[0] if c_.args else None
+        src_ok = False
+        if isinstance(a0, ast.Call) and last_attr(a0.func) == "sigfig":
+            inner = a0
+        elif isinstance(a0, ast.Name):
+            st_ = c_
+            while not isinstance(st_, ast.stmt):
+                st_ = st_._parent
+            blk = None
+            for fld in ("body", "orelse"):
+                b_ = getattr(st_._parent, fld, None)
+                if isinstance(b_, list) and st_ in b_:
+                    blk = b_
+            prev = [x for x in (blk[: blk.index(st_)] if blk else []) if isinstance(x, ast.Assign) and U(x.targets[0]) == a0.id]
+            inner = prev[-1].value if prev and isinstance(prev[-1].value, ast.Call) and last_attr(prev[-1].value.func) == "sigfig" else None
+        else:
+            inner = None
+        if inner is not None:
+            sig = try_const(inner.args[1], repo.consts) if len(inner.args) >= 2 else next((try_const(k.value, repo.consts) for k in inner.keywords if k.arg == "sigfigs"), None)
+            as_str = any(k.arg == "type" and U(k.value) == "str" for k in inner.keywords)
+            src_ok = sig == repo.consts.get("MAX_SIGNIFICANT_DIGITS") and as_str and U(inner.args[0]) == p0_
+        rep.ob("C13.R3", c_, "decimals are rounded from the 15-significant-digit decimal text of the value", src_ok,
+               "" if src_ok else f"`{U(c_)[:70]}` rounds `{U(a0) if a0 is not None else '?'}` directly: binary noise of a computed value (percentages are value * 100) turns an exact tie into a "
+               "value just below it and the display rounds down (0.145 -> 14%)", key="C13.R3@decimals-source")
     ok = bool(dp) and U(next(kw.value for kw in dp[0].keywords if kw.arg == "decimals")) == "number_format.decimal_places"
     rep.ob("C13.R3", dp[0] if dp else fd, "the number of decimals shown is number_format.decimal_places", ok, "", key="C13.R3@decimals")
     ok = "number_format.decimal_places >= DECIMAL_PLACES_AUTO" in U(fd) and repo.consts.get("DECIMAL_PLACES_AUTO") == 253
@@ -392,6 +420,10 @@ def run(repo, rep, tier):
 
 
 VARIANTS = [
+    M("decimals-from-raw-float", "cell.py", """            formatted_value = sigfig(value, MAX_SIGNIFICANT_DIGITS, type=str, warn=False)
+            formatted_value = sigfig(
+                formatted_value,""", """            formatted_value = sigfig(
+                value,""", "C13.R3"),
     M("fraction-carry-lost", "cell.py", """    if whole > 0:
         if numerator == 0:
             return str(whole)
